@@ -34,6 +34,11 @@ def confirm(sd):
         t0, f0 = tests(repo)
         ap = subprocess.run(["git", "-C", repo, "apply", "--whitespace=nowarn", os.path.abspath(os.path.join(sd, "patch.diff"))],
                             capture_output=True, text=True)
+        if ap.returncode != 0:
+            ap2 = subprocess.run(["patch", "-p1", "-F3", "--binary", "-d", repo, "-i", os.path.abspath(os.path.join(sd, "patch.diff"))],
+                                 capture_output=True, text=True)
+            if ap2.returncode == 0:
+                ap = ap2
         res = {"repo_head": head, "demo_unpatched_exit": rc0, "tests_unpatched": t0, "patch_applies": ap.returncode == 0}
         if ap.returncode == 0:
             rc1, out1 = run(["/venv/bin/python", demo], repo, env)
